@@ -6,3 +6,5 @@ open Fzf.Props.C08
 #print axioms C08_fuzzy_narrowing
 #print axioms C08_exact_narrowing
 #print axioms C08_merger_cache_transparent
+#print axioms C08_quiescent_shows_current
+#print axioms C08_converges
